@@ -96,6 +96,42 @@ func directFromSaved[T State](cfg paletteCfg[T], globalBits, n, length int, data
 	}
 }
 
+// savedForm returns the palette and the packed data of the container as the
+// save format stores them. That format has no direct representation: a
+// container holding direct (global) ids is given a palette of the values it
+// holds, indexed with the width that follows from the palette size, which is
+// what the WithData constructors (and vanilla) read back.
+func (p *PaletteContainer[T]) savedForm() (pal []T, data []uint64) {
+	if _, direct := p.palette.(*globalPalette[T]); !direct {
+		return p.palette.export(), p.data.Raw()
+	}
+	length := p.data.Len()
+	ids := make(map[T]int)
+	index := make([]int, length)
+	for i := range index {
+		v := p.Get(i)
+		id, ok := ids[v]
+		if !ok {
+			id = len(pal)
+			ids[v] = id
+			pal = append(pal, v)
+		}
+		index[i] = id
+	}
+	if len(pal) == 0 {
+		return pal, nil
+	}
+	n := bits.Len(uint(len(pal) - 1))
+	if _, direct := p.config.create(n).(*globalPalette[T]); !direct {
+		n = p.config.bits(n)
+	}
+	storage := NewBitStorage(n, length, nil)
+	for i, id := range index {
+		storage.Set(i, id)
+	}
+	return pal, storage.Raw()
+}
+
 func NewBiomesPaletteContainer(length int, defaultValue BiomesState) *PaletteContainer[BiomesState] {
 	return &PaletteContainer[BiomesState]{
 		bits:    0,
